@@ -16,9 +16,12 @@
    (C15_pandas_steps_never_capture, C15_pandas_steps_rename_equivariant: the full statement for these steps).  The
    C15_hard_coded_* theorems record why the choice matters: with the bare base names (the code before the fix) a user
    column of that name changes the step; their witnesses are the regression corpus of the check.
-   SQL: the full statement is FALSE for the generated view names (C15_with_view_name_capture_refuted, a listed known
-   finding); proved instead (partial): a query whose user tables are not called like its own views resolves every name as
-   the generator meant it.  Polars: scratch names listed in `reserved`, steps not transcribed (known findings, oracle). *)
+   SQL: since fix 161d83f to_sql starts its view counter past every table of the pipeline that is itself named like a view
+   (first_view_id transcribes the rule); no view the generator can then produce is one of the tables, so a WITH query
+   resolves every name as the generator meant it, whatever the tables are called (C15_generated_view_is_no_table,
+   C15_with_query_numbered_no_capture).  C15_view_named_like_table_would_capture records why the rule matters.
+   Polars: since fix 85ef226 the scratch names are chosen like the Pandas ones; they are listed in `reserved` and the
+   steps are not transcribed (metamorphic oracle and regression corpus only). *)
 From Coq Require Import List Bool Arith ZArith String.
 Import ListNotations.
 From DA Require Import Base.PyRT Base.Val Model.Sem Model.Rename Model.ScratchNames Model.ScratchRename Model.ScratchCases.
@@ -153,22 +156,30 @@ Proof. exact join_suffix_capture_refuted. Qed.
 Print Assumptions C15_hard_coded_join_suffix_would_raise.
 
 (* ------------------------------------------------------------------ part B: SQL view names *)
-(* a generated WITH query whose user tables are not named like its views resolves every name as the generator meant it *)
+(* the numbering rule of to_sql: a view <kind>_<i> with i at or past first_view_id of the pipeline's tables is none of them *)
+Theorem C15_generated_view_is_no_table :
+  forall (tables : list string) (p : string) (i : nat) (t : string),
+  In p view_kinds -> In t tables -> first_view_id tables <= i -> t <> (p ++ dec i)%string.
+Proof. exact generated_view_is_no_table. Qed.
+Print Assumptions C15_generated_view_is_no_table.
+
+(* hence a generated WITH query resolves every name as the generator meant it -- no guard on the tables' names *)
+Theorem C15_with_query_numbered_no_capture :
+  forall q : wquery, wq_wellformed q = true -> forallb (generated_view_name (wq_tables q)) (w_ctes q) = true -> captured_refs q = [].
+Proof. exact with_query_numbered_no_capture. Qed.
+Print Assumptions C15_with_query_numbered_no_capture.
+
+(* the general form: no capture when no table is named like one of the query's views *)
 Theorem C15_with_query_no_capture :
   forall q : wquery, wq_wellformed q = true -> (forall n, In n (wq_tables q) -> ~ In n (w_ctes q)) -> captured_refs q = [].
 Proof. exact with_no_capture. Qed.
 Print Assumptions C15_with_query_no_capture.
 
-Theorem C15_tables_outside_reserved_are_not_captured :
-  forall q : wquery, wq_wellformed q = true -> (forall v, In v (w_ctes q) -> is_reserved STable v = true) ->
-  (forall n, In n (wq_tables q) -> is_reserved STable n = false) -> captured_refs q = [].
-Proof. exact outside_reserved_tables_not_captured. Qed.
-Print Assumptions C15_tables_outside_reserved_are_not_captured.
-
-Theorem C15_with_view_name_capture_refuted :
+(* why the rule matters (the generator before 161d83f numbered from 0): a table called extend_0 under a view extend_0 *)
+Theorem C15_view_named_like_table_would_capture :
   exists q, wq_wellformed q = true /\ In "extend_0" (wq_tables q) /\ is_reserved STable "extend_0" = true /\ captured_refs q <> [].
 Proof. exact with_view_name_capture_refuted. Qed.
-Print Assumptions C15_with_view_name_capture_refuted.
+Print Assumptions C15_view_named_like_table_would_capture.
 
 (* ------------------------------------------------------------------ non-vacuity *)
 Local Open Scope list_scope.
@@ -193,6 +204,11 @@ Example C15_code_leaves_the_witness_columns_alone :
   /\ pexec_code sym (PJoin "LEFT" ["k"] false) (sframe "<L:" ["k"; "x"; "x_tmp_right_col"]) (sframe "<R:" ["k"; "x"])
      = plain sym (PJoin "LEFT" ["k"] false) (sframe "<L:" ["k"; "x"; "x_tmp_right_col"]) (sframe "<R:" ["k"; "x"])
   /\ n_right (code_names ["k"; "x"; "x_tmp_right_col"; "k"; "x"] ["k"; "x"]) "x" = "x_tmp_right_col_".
+Proof. repeat split; vm_compute; reflexivity. Qed.
+
+(* the numbering rule on the old witness: with a table called extend_0 the first view is extend_1 *)
+Example C15_first_view_id_example :
+  first_view_id ["extend_0"; "d2"] = 1%nat /\ generated_view_name ["extend_0"; "d2"] "extend_1" = true /\ generated_view_name ["extend_0"; "d2"] "extend_0" = false.
 Proof. repeat split; vm_compute; reflexivity. Qed.
 
 (* the guards of the part-B theorems are satisfiable: a step that refers to its frame; ordinary names outside `reserved` *)
